@@ -784,3 +784,38 @@ fn collect(o: &Obj, from: u32, refs: &mut Vec<(u32, u32, u16)>, out: &mut Vec<St
         _ => {}
     }
 }
+
+#[cfg(test)]
+mod tests {
+    use super::*;
+    fn fixture(name: &str) -> Vec<u8> {
+        let root = std::env::var("VERIF_REPO").unwrap_or_else(|_| "/repo".into());
+        std::fs::read(format!("{root}/oxidize-pdf-core/tests/fixtures/{name}")).unwrap()
+    }
+    /// Binding to the outside world: files written by qpdf / real producers must read in the
+    /// reference reader, and the qpdf-written base file must pass the strict validator
+    /// (guards the validator against demanding more than real conforming writers do).
+    #[test]
+    fn real_world_fixtures_read() {
+        for (name, min_pages, must_validate) in [
+            ("interop_base.pdf", 1, true),
+            ("Cold_Email_Hacks.pdf", 1, false),
+            ("issue_272_higgs_arxiv_1207_7214.pdf", 1, false),
+            ("issue_286_indexed_images.pdf", 1, false),
+            ("issue_498_actual_text_interop.pdf", 1, false),
+        ] {
+            let b = fixture(name);
+            let f = PdfFile::parse(&b).unwrap_or_else(|e| panic!("{name}: {e}"));
+            let pages = f.pages().unwrap_or_else(|e| panic!("{name}: {e}"));
+            assert!(pages.len() >= min_pages, "{name}: {} pages", pages.len());
+            for p in &pages {
+                f.page_content(p).unwrap_or_else(|e| panic!("{name}: content: {e}"));
+            }
+            let issues = validate_file(&f);
+            eprintln!("{name}: {} pages, {} objects, {} validator messages {:?}", pages.len(), f.xref.len(), issues.len(), &issues[..issues.len().min(3)]);
+            if must_validate {
+                assert!(issues.is_empty(), "{name}: {issues:?}");
+            }
+        }
+    }
+}
